@@ -156,7 +156,9 @@ func c19Gen(r *Run, rng *gen.Rng, corpus []string) *c19Inv {
 			// stems that are "." and ".." (what remains when the last extension is removed)
 			"..tsh", "...tsh",
 			// names another operating system reserves
-			"aux.tsh", "con.tsh", "nul.tsh", "Com1.setup.tsh", "nul .tsh", "lpt1", "PRN.tsh"})
+			"aux.tsh", "con.tsh", "nul.tsh", "Com1.setup.tsh", "nul .tsh", "lpt1", "PRN.tsh",
+			// names that look like somebody's temporary, lock, backup or staging files
+			".tsh-draft.tmp", ".tsh-old.tmp", "draft.tmp", ".#main.tsh", "main.tsh~", ".main.tsh.swp", "#main.tsh#", "main.tsh.orig", "main.tsh.lock", "core", "nohup.out", "~$main.tsh", "main.tmp.tsh", "tmp.tsh"})
 		// imports are relative to the main file's directory: keep the directory, change the base name
 		nm = path.Join(path.Dir(main), path.Base(nm))
 		if rng.Chance(33) && path.Dir(main) == "." && len(gw.Closure) == 1 {
@@ -459,6 +461,20 @@ func c19Gen(r *Run, rng *gen.Rng, corpus []string) *c19Inv {
 		// (the budgets are per process: an invocation that transpiles some hundred times gets more)
 		b.IO += 60 * len(inv.Targets)
 		b.Ticks += 2_000_000 * int64(len(inv.Targets))
+	}
+	if rng.Chance(40) {
+		// files have ages: written a second ago, minutes, days or years ago, or (a clock that was
+		// wrong once) in the future; without this every file of the world is as old as the process
+		ages := []int64{0, 1, 59, 601, 3600, 2 * 86400, 400 * 86400, -3600}
+		same := ages[rng.Intn(len(ages))]
+		mixed := rng.Chance(60)
+		for i := range files {
+			if mixed {
+				files[i].Age = ages[rng.Intn(len(ages))]
+			} else {
+				files[i].Age = same
+			}
+		}
 	}
 	inv.Spec = simrt.WorldSpec{Devices: devices, Files: files, Cwd: cwd, Exe: path.Join(exe, "tsh"), Args: args,
 		MapMode: rng.Pick([]string{"canonical", "reversed", "shuffle"}), MapSeed: rng.U64(), Epoch: int64(rng.Intn(1 << 30)), Budgets: &b}
